@@ -3,6 +3,7 @@ import ast
 
 from harness.translate.main import unit, parse
 from harness.translate.pyx import Refuse, Tr, find_func, strip_doc, dotted
+from harness.translate.normalize import body_differs
 
 
 @unit("Crop", "panoptica/utils/numpy_utils.py, panoptica/_functionals.py, panoptica/utils/processing_pair.py, panoptica/instance_evaluator.py")
@@ -11,7 +12,7 @@ def crop():
     f = find_func(nu, "_get_bbox_nd")
     out = ["From Pan Require Import Base.Common."]
     src = ast.unparse(f)
-    for need in ["for ax in itertools.combinations(reversed(range(N)), N - 1):\n        nonzero = np.any(a=img, axis=ax)\n        out.extend(np.where(nonzero)[0][[0, -1]])",
+    for need in ["for ax in itertools.combinations(reversed(range(N)), N - 1):\n        out.extend(np.where(np.any(a=img, axis=ax))[0][[0, -1]])",
                  "for i in range(0, len(out), 2)", "px_dist = np.ones(N, dtype=np.uint8) * px_dist"]:
         if need not in src:
             raise Refuse("_get_bbox_nd: missing " + need.split("\n")[0])
@@ -45,11 +46,10 @@ def crop():
     out.append(f"Definition gen_crop_stop (lo hi pad shape : Z) : Z := {terms[1]}.")
     fn = parse("panoptica/_functionals.py")
     g = find_func(fn, "_get_paired_crop")
-    gs = [ast.unparse(s) for s in strip_doc(g.body)]
     want = ["assert prediction_arr.shape == reference_arr.shape", "combined = np.logical_or(prediction_arr != 0, reference_arr != 0)",
             "if not combined.any():\n    combined = np.ones_like(combined)", "return _get_bbox_nd(combined, px_dist=px_pad)"]
-    if gs != want:
-        raise Refuse("_get_paired_crop: " + str(gs))
+    if body_differs(g, want):
+        raise Refuse("_get_paired_crop: " + str(body_differs(g, want)))
     pad = g.args.defaults[0]
     if not (isinstance(pad, ast.Constant) and isinstance(pad.value, int)):
         raise Refuse("px_pad default")
